@@ -75,7 +75,9 @@ def static_sweep(tier, seed, lo, hi):
                     'replay': {'module': 'vf.props.c07', 'fn': 'replay_static', 'kwargs': {'spec': [list(x) for x in spec], 'scope': scope}}}
     multi = 0
     if lo == 0:
-        for name, (prog, _) in c01.multi_function_programs().items():
+        extra = dict(c01.multi_function_programs())
+        extra.update(c01.sequence_programs(True))
+        for name, (prog, _) in extra.items():
             probs = static_facts(skel.text(prog))
             multi += 1
             if probs:
@@ -92,7 +94,9 @@ def replay_static(spec, scope):
 
 
 def replay_static_multi(name):
-    prog, _ = c01.multi_function_programs()[name]
+    extra = dict(c01.multi_function_programs())
+    extra.update(c01.sequence_programs(True))
+    prog, _ = extra[name]
     src = skel.text(prog)
     probs = static_facts(src)
     return (not probs), {'source': src, 'problems': probs, 'clause': 'static'}
@@ -124,7 +128,9 @@ def plan(tier, seed, workdir):
             prog, narr = skel.build(spec, scope)
             c01.add_shape(p, workdir, f'{skel.spec_name(spec)}_{scope[0]}', prog, narr, maxbits, timeout, 'shape', fn='lbl')
             n += 1
-    for name, (prog, narr) in c01.multi_function_programs().items():
+    extra = dict(c01.multi_function_programs())
+    extra.update(c01.sequence_programs(tier == 'thorough', seed))
+    for name, (prog, narr) in extra.items():
         c01.add_shape(p, workdir, name, prog, narr, maxbits, timeout, 'multi', fn='lbl')
         n += 1
     p.extra_coverage.update(static_shapes_checked=nprog, solver_shapes=n,
